@@ -154,12 +154,12 @@ class Gen:
             elif x < 0.91:
                 lines.append("has %d" % self.ty())
             elif x < 0.95:
-                lines.append("drain")
+                lines.append("wait" if r.random() < 0.4 else "drain")
             elif x < 0.98:
                 lines.append("cancelid %d" % r.randrange(1, 6))
             else:
                 lines.append("readlog")
-        lines.append("drain")
+        lines.append("wait")
         for t in self.types:
             lines.append("count %d" % t)
         lines.append("readlog")
